@@ -257,6 +257,10 @@ V("C06", "free-fit-memo-by-identity", "fire", "C06.R7", "the unconstrained fit i
   ("src/pyhf/infer/test_statistics.py", 'def __dir__():\n    return __all__\n', 'def __dir__():\n    return __all__\n\n\n_FREE_FITS = {}\n'), ("src/pyhf/infer/test_statistics.py", '    muhatbhat, unconstrained_fit_lhood_val = fit(\n        data, pdf, init_pars, par_bounds, fixed_params, return_fitted_val=True\n    )\n    log_likelihood_ratio = fixed_poi_fit_lhood_val - unconstrained_fit_lhood_val\n', '    if id(data) not in _FREE_FITS:\n        _FREE_FITS[id(data)] = fit(\n            data, pdf, init_pars, par_bounds, fixed_params, return_fitted_val=True\n        )\n    muhatbhat, unconstrained_fit_lhood_val = _FREE_FITS[id(data)]\n    log_likelihood_ratio = fixed_poi_fit_lhood_val - unconstrained_fit_lhood_val\n'))
 V("C06", "free-fit-temp", "silent", "", "free fit result unpacked through a temporary",
   ("src/pyhf/infer/test_statistics.py", '    muhatbhat, unconstrained_fit_lhood_val = fit(\n        data, pdf, init_pars, par_bounds, fixed_params, return_fitted_val=True\n    )\n    log_likelihood_ratio = fixed_poi_fit_lhood_val - unconstrained_fit_lhood_val\n', '    free_fit = fit(\n        data, pdf, init_pars, par_bounds, fixed_params, return_fitted_val=True\n    )\n    muhatbhat, unconstrained_fit_lhood_val = free_fit\n    log_likelihood_ratio = fixed_poi_fit_lhood_val - unconstrained_fit_lhood_val\n'))
+V("C17", "duplicate-test-by-get-is-not-none", "silent", "", "duplicate name detected through dict.get(...) is not None",
+  ("src/pyhf/patchset.py", "            if patch.name in self._patches_by_key:\n                raise exceptions.InvalidPatchSet(\n                    f'Multiple patches were defined by name for {patch}.'\n                )\n", "            previous = self._patches_by_key.get(patch.name)\n            if previous is not None:\n                raise exceptions.InvalidPatchSet(\n                    f'Multiple patches were defined by name for {patch} (also {previous}).'\n                )\n"))
+V("C17", "duplicate-test-by-truthiness", "fire", "C17.R6", "duplicate name detected through the truth value of the earlier patch: an empty patch (legal) is falsy",
+  ("src/pyhf/patchset.py", "            if patch.name in self._patches_by_key:\n                raise exceptions.InvalidPatchSet(\n                    f'Multiple patches were defined by name for {patch}.'\n                )\n", "            previous = self._patches_by_key.get(patch.name)\n            if previous:\n                raise exceptions.InvalidPatchSet(\n                    f'Multiple patches were defined by name for {patch} (also {previous}).'\n                )\n"))
 
 # ------------------------------------------------------------------ C08
 INF = "src/pyhf/infer/__init__.py"
